@@ -545,6 +545,13 @@ def unlock_post(prop):
                 res.oblige(pc, f'{prop}.unlock.props_well_formed[{sig}]', wf)
             if p.events('instantiate_key_failed'):
                 res.oblige(p, f'{prop}.unlock.failed_key_never_unlocks[{sig}]', z3.BoolVal(not sets and p.kind == 'raise'))
+            if (p.kind == 'raise' and p.value.cls == 'ReplicatError' and p.events('parse_config')
+                    and not p.events('instantiate_key') and not p.events('instantiate_key_failed')):
+                # unlock refuses WITHOUT trying the key only when the password or the key is missing: every password init / add_key
+                # accept (anything but None - the empty string included) is tried against the key
+                pw, key = b.st.lookup('password'), b.st.lookup('key')
+                res.oblige(p, f'{prop}.unlock.refused_untried_only_if_password_or_key_is_missing[{sig}]',
+                           z3.Or(pw.ty.is_none(pw.z), key.ty.is_none(key.z)))
             for e in p.events('parse_config'):
                 # whether the repository is encrypted (and with what) is read from THIS repository's `config` object, fetched from the
                 # backend by this call - not from a copy kept elsewhere (another repository's config would switch encryption off)
